@@ -95,9 +95,24 @@ def doAccess (mode world spine checker impl : String) : String :=
   | _, .error e, _ => bad s!"spine:{e}"
   | _, _, .error e => bad s!"checker:{e}"
 
+/-- `serve`: the batch of the world is run invocation by invocation through the server model -/
+def doServe (mode world impl : String) : String :=
+  match Lean.Json.parse world >>= WorldJson.parseWorld with
+  | .ok p =>
+    let fuel := 64 + 4 * p.ntokens
+    let parts := p.invs.map fun inv =>
+      let r := Srv.run p.W fuel p.services inv
+      if mode == "C09" then s!"{inv.tok.id}:{WorldJson.outStr r.out}"
+      else s!"{inv.tok.id}:{WorldJson.outStr r.out}:{"&".intercalate (r.calls.map WorldJson.callStr)}"
+    let model := ";".intercalate parts
+    let oracle := if model == impl then "ok" else "-"
+    s!"{model}\t{oracle}"
+  | .error e => bad s!"world:{e}"
+
 def handle (line : String) : String :=
   match line.splitOn "\t" with
   | ["access", mode, world, spine, checker, _, impl] => doAccess mode world spine checker impl
+  | ["serve", mode, world, impl] => doServe mode world impl
   | ["access3", mode, world, spine, checker, _, impl] => doAccess mode world spine checker impl
   | ["c16x", n, p, _] =>
     match n.toNat?, Bytes.ofHex p with
